@@ -1,0 +1,9 @@
+//go:build verif
+
+package sharedport
+
+import "io"
+
+// VerifReadPassSockHeader exposes the unexported pass-socket header decoder to
+// the verification harness (build tag verif only).
+func VerifReadPassSockHeader(r io.Reader) error { return readPassSockHeader(r) }
